@@ -11,7 +11,9 @@ from vlib import unitmodel as um
 from vlib.harness import Sub
 
 PROPERTY = "C08"
-RULE = ("conversion cases: Array or 1-3 component Vector (dtypes float64/32 int64/32, shapes 0-d/1-d/2-d) x ordered unit "
+RULE = ("storage cases: complex128/complex64 values and numpy masked arrays (Array or 2-component Vector) converted between "
+        "generated unit pairs; the converted complex number / the mask and the unmasked converted values are compared.  "
+        "conversion cases: Array or 1-3 component Vector (dtypes float64/32 int64/32, shapes 0-d/1-d/2-d) x ordered unit "
         "pair within a family (+ a third unit for chains) or across families (must raise; includes length<->frequency/"
         "energy/wavenumber pairs).  Oracle: independent unit model: a.to(u) is the same physical quantity (rtol 1e-9, "
         "64 eps for float32), a is bit-identical afterwards (values buffer, unit, name), a.to(u).to(a.unit) ~ a, "
@@ -339,9 +341,71 @@ def _config_case(case, r):
         shutil.rmtree(home, ignore_errors=True)
 
 
+# ------------------------------------------------------------------ other kinds of storage
+@st.composite
+def storage_case_st(draw):
+    ua, ub, rel = draw(vs.unit_pairs())
+    n = draw(st.integers(1, 6))
+    num = st.floats(-1e3, 1e3, allow_nan=False).filter(lambda x: x == 0 or abs(x) > 1e-3)
+    return {"kind": draw(st.sampled_from(["complex128", "complex64", "masked", "masked"])), "from": ua, "to": ub, "rel": rel,
+            "vector": draw(st.integers(0, 3)) == 0,
+            "re": draw(st.lists(num, min_size=n, max_size=n)), "im": draw(st.lists(num, min_size=n, max_size=n)),
+            "mask": draw(st.lists(st.booleans(), min_size=n, max_size=n))}
+
+
+def storage(case, r):
+    """to() on values that are complex numbers or a numpy masked array: every part of the value is converted or kept"""
+    kind = case["kind"]
+    r.label("storage_" + kind, "rel_" + case["rel"])
+    r.nontrivial(case["rel"] == "compat")
+    re_, im_ = np.array(case["re"]), np.array(case["im"])
+    if kind.startswith("complex"):
+        vals = (re_ + 1j * im_).astype(kind)
+    else:
+        vals = np.ma.masked_array(re_.copy(), mask=np.array(case["mask"]))
+    a = osyris.Array(values=vals.copy(), unit=case["from"])
+    obj = osyris.Vector(a, osyris.Array(values=vals.copy(), unit=case["from"])) if case["vector"] else a
+    try:
+        out = obj.to(case["to"])
+        raised = None
+    except Exception as e:
+        out, raised = None, e
+    fa, fb = um.parse(case["from"]), um.parse(case["to"])
+    if not um.same_dims(fa, fb):
+        if raised is None:
+            r.bad(["storage", "incompatible-no-raise", kind], f"[{case['from']}] -> [{case['to']}] returned {out!r}")
+        return
+    if raised is not None:
+        r.bad(["storage", "raises", kind, type(raised).__name__], f"[{case['from']}] -> [{case['to']}]: {raised!r}")
+        return
+    f = fa[0] / fb[0]
+    tol = 8e-6 if kind == "complex64" else 1e-9           # (rtol 1e-9 as for the real conversions: pint's parsec)
+    for c in (list(out._xyz.values()) if case["vector"] else [out]):
+        got = c.values
+        if kind.startswith("complex"):
+            g = np.asarray(got)
+            if not np.iscomplexobj(g) or np.any(np.abs(g - vals.astype(np.complex128) * f) > tol * np.abs(vals) * abs(f)):
+                r.bad(["storage", "values", kind], f"{vals.tolist()} [{case['from']}] -> [{case['to']}] gave {g.tolist()} "
+                      f"(factor {f!r}): the value is not the converted complex number")
+                return
+        else:
+            if not isinstance(got, np.ma.MaskedArray) or not np.array_equal(np.ma.getmaskarray(got), np.ma.getmaskarray(vals)):
+                r.bad(["storage", "mask-lost", kind], f"mask {case['mask']} of the values is "
+                      f"{np.ma.getmaskarray(got).tolist() if isinstance(got, np.ma.MaskedArray) else 'gone (plain ndarray)'} "
+                      f"after to({case['to']!r})")
+                return
+            keep = ~np.ma.getmaskarray(vals)
+            g = np.ma.getdata(got)[keep]
+            if np.any(np.abs(g - re_[keep] * f) > tol * np.abs(re_[keep] * f)):
+                r.bad(["storage", "values", kind], f"unmasked values {re_[keep].tolist()} -> {g.tolist()} (factor {f!r})")
+                return
+
+
 def subs(ctx):
     return [
         Sub("catalogue", catalogue, cases=_catalogue_cases()),
+        Sub("storage", storage, strategy=storage_case_st(), quick=300, thorough=3000,
+            required={"storage_masked": 0.2, "storage_complex128": 0.1}),
         Sub("convert", convert, strategy=conv_case_st(), quick=2500, thorough=12000,
             required={"rel_incompat": 0.1, "rel_compat": 0.3, "kind_V": 0.15}),
     ]
